@@ -61,8 +61,14 @@ func init() {
 	}
 	specs["C07"] = dkvSpec(12000, 600000)
 	specs["C08"] = dkvSpec(8000, 400000, "checkpoint", "verify-restore", "switch")
-	specs["C09"] = dkvSpec(2500, 100000, "gc", "retain", "verify-restore")
-	specs["C18"] = dkvSpec(8000, 400000)
+	c09 := dkvSpec(2500, 100000, "gc", "retain", "verify-restore")
+	c09.ExtraHarness, c09.ExtraQuickRuns, c09.ExtraThoroughRuns = "H-OP", 1500, 60000
+	c09.Rule += "; plus H-OP runs: 1-4 real operators rescaled M->N through Assembly.Deploy so that they share SST files, with compaction, retention updates and scheduled garbage-collection steps (table cleanups ask the neighbours through OperatorPartition / NeedsTable); oracle = reference handler state after the GC steps and independent read-back of the next checkpoints"
+	specs["C09"] = c09
+	specs["C18"] = dkvSpec(8000, 400000, "compaction-step", "flush-during-compaction")
+	c18 := specs["C18"]
+	c18.Rule += "; half of the runs drive sst.LevelList + sst.Compactor directly (swarm compactor settings, 2-6 levels, level-0 tables arriving between computing and applying a change set) and additionally check layout validity from the level document and the independently decoded table files (levels >= 1 sorted and non-overlapping, no newer sequence number beneath an older one)"
+	specs["C18"] = c18
 	specs["C10"] = spec{Harness: "H-TIMER", QuickRuns: 10000, QuickWallS: 50, ThoroughRuns: 500000, ThoroughWallS: 1200, Chunk: 250,
 		MandatoryProbes: []string{"timers-fired", "restore", "repeated-set"},
 		Real:            []string{"operator.TimerRegistry", "operator.TimerStore", "operator.KeyGroupPriorityQueue", "util/ds.PartitionedPriorityQueue", "util/ds.SortedCache", "util/ds.Heap", "util/binu", "partitioning.KeySpace", "dkv.DB (all of dkv/)"},
